@@ -303,9 +303,19 @@ func (c *c09ctx) site(ins ssa.Instruction, kind, name string) *siteRes {
 	return s
 }
 
+// c09SiteKinds: when set, only panic sites of these kinds are obligations (the others need invariants of the code under
+// analysis that the caller of the analysis does not have).
+var c09SiteKinds map[string]bool
+
 func (c *c09ctx) record(ins ssa.Instruction, kind, name string, ok bool, why string, st *pstate) {
 	if c.collect {
 		return
+	}
+	if c09SiteKinds != nil && !c09SiteKinds[kind] {
+		return
+	}
+	if !ok && kind == "index" && tableFirstRule(c.prog, ins) {
+		ok = true // g.rules[0]: the table has a first rule (it is a literal; C20 compares it with the grammar)
 	}
 	s := c.site(ins, kind, name)
 	s.reached++
@@ -1885,4 +1895,50 @@ func (c *c09ctx) isExprNodePtr(t types.Type) bool {
 	}
 	iface, ok := et.Underlying().(*types.Interface)
 	return ok && types.Implements(t, iface)
+}
+
+// tableFirstRule: ins indexes the rule list of the grammar table variable with the constant 0 and the table's literal has
+// at least one rule.
+func tableFirstRule(prog *Program, ins ssa.Instruction) bool {
+	ia, ok := ins.(*ssa.IndexAddr)
+	if !ok {
+		return false
+	}
+	c, ok := ia.Index.(*ssa.Const)
+	if !ok || c.Value == nil || c.Value.ExactString() != "0" {
+		return false
+	}
+	ld, ok := ia.X.(*ssa.UnOp)
+	if !ok {
+		return false
+	}
+	fa, ok := ld.X.(*ssa.FieldAddr)
+	if !ok || fieldName(fa.X.Type(), fa.Field) != "rules" {
+		return false
+	}
+	gl, ok := fa.X.(*ssa.UnOp)
+	if !ok {
+		return false
+	}
+	g, ok := gl.X.(*ssa.Global)
+	if !ok || prog.GrammarSSA == nil || g.Pkg != prog.GrammarSSA {
+		return false
+	}
+	// the table's literal: at least one rule allocated by the package initialiser
+	for _, m := range prog.GrammarSSA.Members {
+		f, ok := m.(*ssa.Function)
+		if !ok || f.Synthetic != "package initializer" {
+			continue
+		}
+		for _, b := range f.Blocks {
+			for _, i2 := range b.Instrs {
+				if al, ok := i2.(*ssa.Alloc); ok {
+					if namedIs(al.Type().Underlying().(*types.Pointer).Elem(), grammarPath, "rule") {
+						return true
+					}
+				}
+			}
+		}
+	}
+	return false
 }
